@@ -64,6 +64,7 @@ class Contract:
         self.notes = []
         self.case_splits = []
         self.logicals = {}        # ghost (universally quantified) parameters: name -> type
+        self.reveals = []         # opaque definitions this proof needs (e.g. "occ")
         self.pos_independent = []  # [(file parameter, condition)]: the result does not depend on its initial position
         self.result_alias = {}    # object results: field -> parameter expression it aliases
         self.initializes = {}     # constructors: field -> expression over the parameters (post-state)
@@ -77,7 +78,7 @@ class Contract:
 
 _SPEC_CALLS = {"requires", "ensures", "raises", "raises_only", "modifies", "terminates", "loop", "ghost", "local",
                "mode", "returns", "decreases", "cover", "yields", "note", "case_split", "fuel", "timeout", "domain",
-               "logical", "initializes", "result_alias", "position_independent"}
+               "logical", "initializes", "result_alias", "position_independent", "reveal"}
 
 
 def _const(node):
@@ -144,6 +145,8 @@ def _parse_body(c, body):
                 c.covers += call.args
             elif f == "domain":
                 c.covers.append(call)
+            elif f == "reveal":
+                c.reveals += [_const(a) for a in call.args]
             elif f == "position_independent":
                 c.pos_independent.append((call.args[0].id, kw.get("when")))
             elif f == "result_alias":
